@@ -343,6 +343,22 @@ class VerusFile:
         self.fn_text(fq, text, contract, props, file=rel, lines=reg.lines(), anchor=anchor, attrs=attrs)
         return pats
 
+    def const(self, rel, anchor, fq, ensures=(), props=(), rewrites=()):
+        """A `const NAME: T = EXPR;` whose initializer calls exec functions (not usable as a Verus const,
+        and `exec const` is rejected inside generic impls): emitted as `fn NAME() -> (r: T) ensures .. { EXPR }`
+        (rule R12: a const is its initializer evaluated at each use; use sites are rewritten with
+        `const_as_fn(NAME)`)."""
+        reg = self.repo.at(rel, anchor)
+        text = drop_vis(strip_docs(reg.text)).strip()
+        text = self._apply(text, rewrites, anchor)
+        m = re.match(r"const\s+(\w+)\s*:\s*(.*?)\s*=\s*(.*);\s*$", text, flags=re.S)
+        if not m:
+            raise Undecided("const %s: unexpected shape" % anchor)
+        name, ty, expr = m.group(1), m.group(2), m.group(3)
+        self.rewrites_used.append("R12 const-as-fn @ %s" % anchor)
+        self.fn_text(fq, "fn %s() -> %s {\n    %s\n}" % (name, ty, expr), Contract(ensures=list(ensures)), props,
+                     file=rel, lines=reg.lines(), anchor=anchor)
+
     def spec_obligation(self, fq, text, props):
         """A proof fn / lemma written in /verif (origin verif) that counts as an obligation."""
         start = self._emit(text, dict(origin="verif", fn=fq))
@@ -572,6 +588,20 @@ def bool_ge(*fields):
         new, n = re.subn(r"(\b\w+\.(?:%s))\s*>=\s*(\b\w+\.(?:%s))\b" % (pats, pats), r"(\1 || !\2)", text)
         return new if n else None
     return rw
+
+
+def _trim_derive(m):
+    keep = [x.strip() for x in m.group(1).split(",") if x.strip() in ("Clone", "Copy", "PartialEq", "Eq")]
+    return "#[derive(%s)]" % ", ".join(keep) if keep else ""
+
+
+# R1: derives other than Clone/Copy/PartialEq/Eq (Debug, Hash, PartialOrd, Ord, Default) are dropped
+DERIVE_TRIM = sub("R1-derive", r"#\[derive\(([^)]*)\)\]", _trim_derive, required=False)
+
+
+def const_as_fn(name, required=True):
+    """R12 use-site rewrite: `Self::NAME` -> `Self::NAME()`."""
+    return sub("R12", r"\b(Self::%s)\b(?!\s*\()" % name, r"\1()", required=required)
 
 
 R5_BOOL_OPASSIGN = sub("R5", r"(\b[\w.]+)\s*([|&])=\s*([^;]+);", lambda m: "%s = %s %s (%s);" % (m.group(1), m.group(1), m.group(2) * 2, m.group(3)), required=False)
